@@ -320,11 +320,11 @@ theorem readUF_of_refLen : ∀ m, UfReadsF (refLen m) (fun s t id => readUF m s 
         · simp [hc] at h
     simp [h13] at h
 
-/-- a sequence of ≥ 1 fields whose values Binary.Skip accepts with maxdepth d converts with limit d+1 -/
-theorem convertM_of_skipAccepted (d : Nat) (b : Bytes) (hne : b ≠ [])
-    (h : encSeq (refBin d) (b.length + 1) b = true) : ∃ fs, convertM (d + 1) b = .ok fs := by
-  have H : UfReadsF (refBin d) (fun s t id => readUF (d + 1) s t id) :=
-    fun s k t i hk => readUF_of_refLen (d + 1) s k t i (refBin_le_refLen d t s k hk)
+/-- a sequence of ≥ 1 fields whose values Binary.Skip accepts with maxdepth d converts with any limit m ≥ d+1 -/
+theorem convertM_of_skipAccepted (d m : Nat) (hm : d + 1 ≤ m) (b : Bytes) (hne : b ≠ [])
+    (h : encSeq (refBin d) (b.length + 1) b = true) : ∃ fs, convertM m b = .ok fs := by
+  have H : UfReadsF (refBin d) (fun s t id => readUF m s t id) :=
+    fun s k t i hk => readUF_of_refLen m s k t i (refLen_mono hm t s k (refBin_le_refLen d t s k hk))
   have hpos : 0 < b.length := List.length_pos_iff.mpr hne
   obtain ⟨fs, hc⟩ := uf_convertLoop_ok _ _ H b (b.length + 1) (b.length + 1) 0 (by omega) (by omega) (by simpa using h)
   have : ¬ b.length = 0 := by omega
